@@ -42,6 +42,7 @@ type vProbeScen struct {
 	DupAck      bool        `json:"dupAck"`
 	Score0      int         `json:"score0"`
 	SendErr     bool        `json:"sendErr"`
+	DupNack     bool        `json:"dupNack"`
 }
 
 type vRelayScen struct {
@@ -272,6 +273,9 @@ func vRunProbe(t *testing.T, s *vSink, id int, sc vProbeScen) (l vProbeLine) {
 					}
 					if rb.Nack {
 						after(2*pt+10*time.Millisecond, func() { vSendRaw(trR, trP, nackRespMsg, &nackResp{SeqNo: ind.SeqNo}) })
+						if sc.DupNack {
+							after(2*pt+11*time.Millisecond, func() { vSendRaw(trR, trP, nackRespMsg, &nackResp{SeqNo: ind.SeqNo}) })
+						}
 					}
 				case <-stop:
 					return
